@@ -982,6 +982,9 @@ pub fn run(ctx: &mut Ctx, eng: &mut dyn Engine) {
         ("raptorq", 4, 300, 3, 2, 2400),
         ("raptor", 1, 1, 1, 2, 300),
         ("raptor", 4, 300, 2, 2, 2400),
+        // scheme K maxima: add_object refuses larger source blocks (/repo 29615e2)
+        ("raptor", 1, 8193, 1, 1, 8193),
+        ("raptorq", 1, 56404, 1, 1, 56404),
     ];
     for (i, (scheme, e, b, p, win, len)) in bcases.iter().enumerate() {
         for src in ["buf".to_string(), format!("chk:f{}", 7.max(*len / 40))] {
